@@ -298,6 +298,7 @@ inductive MErr where
   | assign (cls : String)     -- PathAssignError / PathDeleteError wrapping an exception of class `cls`
   | unregistered              -- UnregisteredTarget: the type cannot be assigned to
   | typeError                 -- `sum(val, [])` on a non-list / iterating a non-list
+  | raw (cls : String)        -- an exception of the `[` / `.` final step no `except` clause names: propagates as it is
   deriving DecidableEq, Repr
 
 /-- `get_handler('assign', dest)` of the default registry -/
@@ -356,7 +357,7 @@ def assignOne (cs : Classes) (h : Heap) (dest arg v : Val) : Except MErr Heap :=
      | _, .str _ => .error (.assign "AttributeError")
      | _, _ => .error (.assign "TypeError"))
 
-/-- `Delete._del_one(dest, 'P', arg)` with `ignore_missing=False` -/
+/-- `Delete._del_one(dest, 'P', arg)` with `ignore_missing=False` (`delOp` adds the flag) -/
 def deleteOne (cs : Classes) (h : Heap) (dest arg : Val) : Except MErr Heap :=
   match assignH cs (dest.clsName h) with
   | .none => .error .unregistered
@@ -393,6 +394,105 @@ def deleteOne (cs : Classes) (h : Heap) (dest arg : Val) : Except MErr Heap :=
         | _ => .error (.assign "AttributeError"))
      | _, .str _ => .error (.assign "AttributeError")
      | _, _ => .error (.assign "TypeError"))
+
+/-! ### the final step in T spelling (`[` / `.`) and the two flags
+
+  `_assign_op`:  `[` → `dest[arg] = val`, `.` → `setattr(dest, arg, val)` — no `try`: whatever CPython
+                 raises leaves `glom()` as it is (`MErr.raw`); `P` → the registered handler inside
+                 `try … except Exception → PathAssignError` (`assignOne`).
+  `_del_one`:    `[` → `del dest[arg]` catching KeyError / IndexError, `.` → `delattr` catching
+                 AttributeError, `P` → the handler catching Exception; what is caught becomes a
+                 PathDeleteError — or, with `ignore_missing=True`, nothing at all: that entry is left
+                 alone and the loop of `_apply_for_each` goes on to the next one.  What is not caught
+                 (a `TypeError` of `del (1, 2)[0]`, UnregisteredTarget from the handler lookup, which is
+                 outside the `try`) propagates whatever the flag.                                   -/
+
+/-- position `i` denotes in a sequence of length `n` -/
+def seqPos (n : Nat) (i : Int) : Option Nat :=
+  let j := if i < 0 then i + n else i
+  if j < 0 || j ≥ n then none else some j.toNat
+
+/-- `dest[arg] = v` -/
+def setItemRaw (h : Heap) (dest arg v : Val) : Except MErr Heap :=
+  match dest with
+  | .ref a =>
+    (match h[a]? with
+     | some (.dict c es) =>
+       if arg.hashable h then .ok (h.set a (.dict c (setDictKey arg v es))) else .error (.raw "TypeError")
+     | some (.list c xs) =>
+       (match asIndex arg with
+        | none => .error (.raw "TypeError")
+        | some i => match seqPos xs.length i with
+          | some j => .ok (h.set a (.list c (xs.set j v)))
+          | none => .error (.raw "IndexError"))
+     | _ => .error (.raw "TypeError"))
+  | _ => .error (.raw "TypeError")
+
+/-- `setattr(dest, arg, v)` (an instance of a container subclass with a `__dict__` takes the
+    attribute where the cell cannot show it, as in `assignOne`) -/
+def setAttrRaw (cs : Classes) (h : Heap) (dest arg v : Val) : Except MErr Heap :=
+  match arg with
+  | .str n =>
+    (match dest with
+     | .ref a =>
+       (match h[a]? with
+        | some (.inst c as) => .ok (h.set a (.inst c (setAssoc n v as)))
+        | some o => if (clsInfo cs o.cls).hasDict then .ok h else .error (.raw "AttributeError")
+        | none => .error (.raw "AttributeError"))
+     | _ => .error (.raw "AttributeError"))
+  | _ => .error (.raw "TypeError")
+
+/-- `_assign_op(dest, op, arg, val, …)` -/
+def assignOp (cs : Classes) (op : String) (h : Heap) (dest arg v : Val) : Except MErr Heap :=
+  if op == "[" then setItemRaw h dest arg v
+  else if op == "." then setAttrRaw cs h dest arg v
+  else assignOne cs h dest arg v
+
+/-- `del dest[arg]`; `.assign cls`: an exception the `except (KeyError, IndexError)` clause catches -/
+def delItemRaw (h : Heap) (dest arg : Val) : Except MErr Heap :=
+  match dest with
+  | .ref a =>
+    (match h[a]? with
+     | some (.dict c es) =>
+       if !(arg.hashable h) then .error (.raw "TypeError")
+       else if (dictLookup es arg).isSome then
+         .ok (h.set a (.dict c (es.filter (fun e => !(pyKeyEq e.1 arg)))))
+       else .error (.assign "KeyError")
+     | some (.list c xs) =>
+       (match asIndex arg with
+        | none => .error (.raw "TypeError")
+        | some i => match seqPos xs.length i with
+          | some j => .ok (h.set a (.list c (xs.eraseIdx j)))
+          | none => .error (.assign "IndexError"))
+     | _ => .error (.raw "TypeError"))
+  | _ => .error (.raw "TypeError")
+
+/-- `delattr(dest, arg)`; `.assign "AttributeError"`: caught by `except AttributeError` -/
+def delAttrRaw (h : Heap) (dest arg : Val) : Except MErr Heap :=
+  match arg with
+  | .str n =>
+    (match dest with
+     | .ref a =>
+       (match h[a]? with
+        | some (.inst c as) =>
+          if (as.find? (·.1 == n)).isSome then .ok (h.set a (.inst c (as.filter (fun p => p.1 != n))))
+          else .error (.assign "AttributeError")
+        | _ => .error (.assign "AttributeError"))
+     | _ => .error (.assign "AttributeError"))
+  | _ => .error (.raw "TypeError")
+
+/-- the deletion a final step denotes; `.assign cls`: it raised a class its `except` clause names -/
+def delRaw (cs : Classes) (op : String) (h : Heap) (dest arg : Val) : Except MErr Heap :=
+  if op == "[" then delItemRaw h dest arg
+  else if op == "." then delAttrRaw h dest arg
+  else deleteOne cs h dest arg
+
+/-- `Delete._del_one(dest, op, arg, scope)` of a Delete built with `ignore_missing=ignore`:
+    a *caught* failure is dropped when the flag is set — for this entry only -/
+def delOp (cs : Classes) (op : String) (ignore : Bool) (h : Heap) (dest arg : Val) : Except MErr Heap :=
+  match delRaw cs op h dest arg with
+  | .error (.assign c) => if ignore then .ok h else .error (.assign c)
+  | r => r
 
 /-- `for inner in val: func(inner)` on one heap, stopping at the first exception (what was
     mutated before stays mutated) -/
